@@ -204,8 +204,10 @@ where
     // Channel to collect results from all attempts
     let (tx, mut rx) = mpsc::channel::<(usize, Result<S::Response, S::Error>)>(max_attempts);
 
-    // Spawn primary request
-    let mut service_clone = service.clone();
+    // Spawn primary request on the instance that reported readiness; hedges run on clones,
+    // which observe readiness themselves before they are called.
+    let hedge_service = service.clone();
+    let mut service_clone = service;
     let req_clone = req.clone();
     let tx_clone = tx.clone();
     tokio::spawn(async move {
@@ -287,11 +289,14 @@ where
                                 timestamp: Instant::now(),
                             });
 
-                            let mut svc = service.clone();
+                            let mut svc = hedge_service.clone();
                             let r = req.clone();
                             let tx_c = tx.clone();
                             tokio::spawn(async move {
-                                let result = svc.call(r).await;
+                                let result = match std::future::poll_fn(|cx| svc.poll_ready(cx)).await {
+                                    Ok(()) => svc.call(r).await,
+                                    Err(e) => Err(e),
+                                };
                                 let _ = tx_c.send((attempt_num, result)).await;
                             });
 
@@ -353,11 +358,14 @@ where
                         timestamp: Instant::now(),
                     });
 
-                    let mut svc = service.clone();
+                    let mut svc = hedge_service.clone();
                     let r = req.clone();
                     let tx_c = tx.clone();
                     tokio::spawn(async move {
-                        let result = svc.call(r).await;
+                        let result = match std::future::poll_fn(|cx| svc.poll_ready(cx)).await {
+                            Ok(()) => svc.call(r).await,
+                            Err(e) => Err(e),
+                        };
                         let _ = tx_c.send((i, result)).await;
                     });
                 }
